@@ -229,8 +229,25 @@ def check_package(run, sc, g, enc, pkg, tag, rep, orders, complete, drive_calls)
         viol(f"K1b: fragments module {'written' if ftext is not None else 'not written'}, model says the opposite", found=False)
     frag_order = []
     if ftext is not None and mod is not None:
-        classes, _imports = frag_inputs.skeleton(ftext)
+        classes, f_imports = frag_inputs.skeleton(ftext)
         frag_order = [n for n, _ in classes]
+        # @mixin imports of the module: those of EVERY generated fragment whose class is a base of some class
+        # (autoflake drops the others), vs the import statements of the file
+        used_bases = {b for _n, bs in classes for b in bs}
+        want_mix = sorted({(fr, im) for fr, im in mod["imports"] if im in used_bases})
+        got_mix = sorted({(m_, n_) for m_, ns in f_imports.items() if not m_.startswith(".") for n_ in ns
+                          if n_ in used_bases})
+        if want_mix != got_mix:
+            missing = [x for x in want_mix if x not in got_mix]
+            viol(f"fragments module imports {got_mix} for @mixin classes, the generated fragments need {want_mix}"
+                 + (f": missing {missing}" if missing else ""), {"observed": got_mix, "expected": want_mix},
+                 found=bool(missing))
+        # every name a class statement refers to as a base is defined or imported
+        imported = {n_ for ns in f_imports.values() for n_ in ns}
+        for n, bs in classes:
+            for b in bs:
+                if b not in imported and b not in {c for c, _ in classes}:
+                    viol(f"fragments module: base {b} of class {n} is neither defined nor imported", {"observed": sorted(imported)})
         by_name = {}
         for n in mod["order"]:
             for c in mod["classes"][n]:
@@ -518,7 +535,9 @@ def run(ctx):
     defs7 = ["query Q { dog { ...DOG_ALL } }", "fragment itemDetails on Dog { bark ...itemName }",
              "fragment itemName on Dog { name }", "fragment dog_extra_1 on Dog { ...itemDetails }",
              "fragment DOG_ALL on Dog { ...dog_extra_1 ...itemName }"]
-    for k_, (nm_, ds_) in enumerate([("case-style-regression", defs3), ("nested-mention-regression", defs4),
+    defs8 = ["query Q($c: Boolean!) { dog { ...G ...Audited @include(if: $c) } }", "fragment G on Dog { bark ...Audited }",
+             'fragment Audited on Dog @mixin(from: "mixins_impl", import: "MixinA") { kind owner @mixin(from: "mixins_impl", import: "MixinB") { id } }']
+    for k_, (nm_, ds_) in enumerate([("readded-fragment-imports-regression", defs8), ("case-style-regression", defs3), ("nested-mention-regression", defs4),
                                      ("coq-example:package", defs5), ("coq-example:conditional", defs6),
                                      ("coq-example:case-styles", defs7)]):
         scs.insert(2 + k_, scenario.Scenario(seed=-10 - k_, sdl=frag_scen.SDL, queries="\n\n".join(ds_) + "\n", config={},
